@@ -5,6 +5,7 @@ from . import ivl
 from .lts import LTS, SELF, LX, lx, EL, RT, action_index, table_set, find_expansions
 from .models import StdModels, NONE, some, pure
 from .segx import Engine, Path, norm_path, project, UNIT
+from .rules_runtime import SAVED
 
 SAR = "lexgen_util::SemanticActionResult"
 
@@ -156,15 +157,15 @@ class GenRules(object):
             bts = [e for e in s.events if e[0] == "enter" and norm_path(e[1] or "") == "Lexer::backtrack"]
             if how[0] == "pointer":
                 v = how[1]
-                ok = bool(bts) and (v == EL("last_match", "@Some", "0", "2")
+                ok = bool(bts) and (v == EL("last_match", "@Some", "0", SAVED["action"])
                                     or (v[0] == "fn" and action_index(self.exp, v) is not None))
                 self.ob("P5", "a function pointer is called only if it is the action returned by backtrack()",
                         ok, inst="pointer-origin", where=w, detail=repr(v)[:200])
-                end_loc = EL("last_match", "@Some", "0", "3")
+                end_loc = EL("last_match", "@Some", "0", SAVED["end"])
                 saved_known = [e for e in s.events if e[0] == "write" and e[2] == lx("last_match")
                                and e[3] != NONE]
                 if saved_known:
-                    end_loc = project(saved_known[-1][3][4][0][1], "3")
+                    end_loc = project(saved_known[-1][3][4][0][1], SAVED["end"])
             else:
                 self.ob("P5", "an immediate accept does not follow a rewind", not bts,
                         inst="direct-after-backtrack", where=w) if bts else None
